@@ -160,6 +160,36 @@ def run_profile(ctx, gen, n, config='default', claims=None, extra_oracle=None, t
         vf.violation(ctx, what, {'config': config, 'script': small, 'script_readable': hist.pretty(small), 'minimised_from': len(scr),
                                  'expected_by_spec': spec.predict(small), 'impl': [o.split('|')[0] for o in out], 'model': [o.split('|')[0] for o in mo],
                                  'violations_total': len(hits)})
+    if dis and not hits and not label.startswith('directed search'):
+        # The correspondence broke but no history of the campaign shows the property itself failing: directed search.
+        # Each disagreeing history is cut right after the first disagreement and continued by a probe that makes the
+        # consequences observable (update, refresh of every key with both flags, an encapsulation for every attribute
+        # ever named under the newest public key, every key against every encapsulation); the reference semantics judges.
+        probes = []
+        for d in dis[:24]:
+            h, ln = d[0], d[1]
+            pre = H[h][:ln + 1]; out = (impl[h] or [])[:ln + 1]
+            nm = sum(1 for l, o in zip(pre, out) if l.split(' ')[0] in ('SETUP', 'UPD', 'RK', 'PR', 'MPK') and o.startswith('OK'))
+            nk = sum(1 for l, o in zip(pre, out) if l.split(' ')[0] == 'KG' and o.startswith('OK'))
+            ne = sum(1 for l, o in zip(pre, out) if l.split(' ')[0] in ('EN', 'RC') and o.startswith('OK'))
+            atts = []
+            for l in pre:
+                f = l.split(' ')
+                if f[0] == 'AT': atts.append((f[1], f[2]))
+                if f[0] == 'RN': atts.append((f[1], f[3]))
+            atts = list(dict.fromkeys(atts))[-6:]
+            for keep in ('1', '0'):
+                suf = ['UPD']; m = nm + 1; e = ne
+                suf += [f'RF {k} {keep}' for k in range(nk)]
+                for (dd, aa) in atts:
+                    pol = bytes.fromhex(dd[1:]).decode() + '::' + bytes.fromhex(aa[1:]).decode()
+                    suf.append(f'EN {m - 1} {hist.x(pol)}'); e += 1
+                    suf.append(f'KG {hist.x(pol)}')
+                suf += [f'DE {k} {j}' for k in range(nk + len(atts)) for j in range(e)][:160]
+                probes.append(pre + suf)
+        if probes:
+            _, _, _, _, phits = run_profile(ctx, None, 0, config=config, claims=claims, extra_oracle=extra_oracle, trigger=None, label='directed search from disagreeing histories', model_check=False, histories=probes)
+            hits = hits + phits
     if getattr(ctx, 'alt_histories', False) and config == 'default' and histories is None and not hits and not label and 'alt' not in getattr(ctx, 'unbuilt', ()):
         run_profile(ctx, gen, max(40, n // 10), config='alt', claims=claims, extra_oracle=extra_oracle, trigger=trigger, label=f'{ctx.prop} on the alternative build', model_check=model_check)
     return H, impl, model, dis, hits
